@@ -2,7 +2,6 @@ package interpreter
 
 import (
 	"fmt"
-	"sort"
 	"strings"
 
 	"github.com/truora/minidyn/types"
@@ -88,10 +87,8 @@ func (ni *Native) getMatcher(tablename, expression string, kind ExpressionType) 
 }
 
 func hashExpressionKey(s string) string {
-	out := strings.Split(strings.TrimSpace(s), "")
-	sort.Strings(out)
-
-	return strings.Join(out, "")
+	// the key is the expression text up to surrounding and repeated whitespace
+	return strings.Join(strings.Fields(s), " ")
 }
 
 // AddUpdater add expression updater to use on key or filter queries
